@@ -297,7 +297,8 @@ def oracle_no_loss(cfg, ops, trace):
         if unsync and prev is not None:
             removed = set(prev.map) - set(s.map)
             w_new = None
-            if o == "I" and int(toks[1]) not in prev.map:
+            # (an insert of a key whose old entry has expired is a fresh insert once the purge has removed it)
+            if o == "I" and (int(toks[1]) not in prev.map or expired_u(cfg, prev.map[int(toks[1])], now)):
                 w_new = weigh(cfg, int(toks[1]), int(toks[2]))
             for k in removed:
                 e = prev.map[k]
